@@ -117,7 +117,7 @@ func typeOfValue(t ssa.Value) (ssa.Value, bool) {
 
 // sameReflect: the same reflect value, looking through single-store locals.
 func sameReflect(a, b ssa.Value) bool {
-	a, b = unspill(a), unspill(b)
+	a, b = origin(a), origin(b)
 	if sameValue(a, b) {
 		return true
 	}
@@ -935,62 +935,49 @@ func guardedInCallers(w *World, fn *ssa.Function, s reflectSite, depth int) stri
 	viaValueOf := false
 	viaType := false
 	var p *ssa.Parameter
-	switch x := recv.(type) {
-	case *ssa.Parameter:
-		p = x
-	case *ssa.Call:
+	field := -1
+	if pp, f, ok := paramOrigin(recv); ok {
+		p, field = pp, f
+	} else if x, ok := recv.(*ssa.Call); ok {
 		if f := x.Call.StaticCallee(); f != nil && f.String() == "reflect.ValueOf" && len(s.legal) == len(allValidKinds) && !s.onType {
-			if pp, ok := unspill(x.Call.Args[0]).(*ssa.Parameter); ok {
-				p, viaValueOf = pp, true
+			if pp, f, ok := paramOrigin(unspill(x.Call.Args[0])); ok {
+				p, field, viaValueOf = pp, f, true
 			}
 		}
 		if s.onType {
 			if v, ok := typeOfValue(recv); ok {
-				if pp, ok := unspill(v).(*ssa.Parameter); ok {
-					p, viaType = pp, true
+				if pp, f, ok := paramOrigin(unspill(v)); ok {
+					p, field, viaType = pp, f, true
 				}
 			}
 		}
 	}
-	if p == nil {
+	if p == nil || p.Parent() != fn {
 		return ""
 	}
-	idx := -1
-	for i, fp := range fn.Params {
-		if fp == p {
-			idx = i
-		}
-	}
-	node := w.callgraph().Nodes[fn]
-	if idx < 0 || node == nil {
+	cvs, ok := callerValues(p, field)
+	if !ok {
 		return ""
 	}
 	n := 0
-	for _, e := range node.In {
-		if e.Site == nil || e.Caller.Func.Package() != fn.Package() {
-			return ""
-		}
-		cc := e.Site.Common()
-		if cc.IsInvoke() || idx >= len(cc.Args) || cc.StaticCallee() != fn {
-			return ""
-		}
-		arg := cc.Args[idx]
-		caller := e.Caller.Func
+	for _, cv := range cvs {
+		arg := cv.val
+		caller := cv.caller
 		n++
 		switch {
 		case viaValueOf:
-			ps := reflectSite{in: e.Site, recv: arg, method: s.method, legal: allValidKinds}
-			if reflectGuardedFlow(caller, ps, nil, arg) == "" && !dominatedByNonNilAssert(arg, e.Site) {
+			ps := reflectSite{in: cv.site, recv: arg, method: s.method, legal: allValidKinds}
+			if reflectGuardedFlow(caller, ps, nil, arg) == "" && !dominatedByNonNilAssert(arg, cv.site) {
 				return ""
 			}
 		case viaType:
 			// the type of the parameter Value: a kind test of the argument Value in the caller
-			ps := reflectSite{in: e.Site, recv: arg, method: s.method, legal: s.legal, onType: false}
+			ps := reflectSite{in: cv.site, recv: arg, method: s.method, legal: s.legal, onType: false}
 			if reflectGuarded(caller, ps) == "" && guardedInParent(caller, ps) == "" && guardedInCallers(w, caller, ps, depth+1) == "" {
 				return ""
 			}
 		default:
-			ps := reflectSite{in: e.Site, recv: arg, method: s.method, legal: s.legal, onType: s.onType}
+			ps := reflectSite{in: cv.site, recv: arg, method: s.method, legal: s.legal, onType: s.onType}
 			if reflectGuarded(caller, ps) == "" && guardedInParent(caller, ps) == "" && guardedInCallers(w, caller, ps, depth+1) == "" {
 				return ""
 			}
@@ -1009,7 +996,7 @@ func containerTypeOriginL(v ssa.Value, depth int, seen map[ssa.Value]bool) (ssa.
 	if depth > 12 {
 		return nil, ""
 	}
-	v = unspill(v)
+	v = origin(v)
 	switch x := v.(type) {
 	case *ssa.Call:
 		f := x.Call.StaticCallee()
@@ -1018,23 +1005,23 @@ func containerTypeOriginL(v ssa.Value, depth int, seen map[ssa.Value]bool) (ssa.
 		}
 		switch f.String() {
 		case "reflect.MakeSlice", "reflect.MakeMap", "reflect.MakeMapWithSize":
-			if o, ok := typeOfValue(unspill(x.Call.Args[0])); ok {
-				return unspill(o), ""
+			if o, ok := typeOfValue(origin(x.Call.Args[0])); ok {
+				return origin(o), ""
 			}
 			// MakeSlice(reflect.SliceOf(V.Type().Elem())): a slice of V's element type
-			if so, ok := unspill(x.Call.Args[0]).(*ssa.Call); ok {
+			if so, ok := origin(x.Call.Args[0]).(*ssa.Call); ok {
 				if sf := so.Call.StaticCallee(); sf != nil && sf.String() == "reflect.SliceOf" {
-					if el, ok := unspill(so.Call.Args[0]).(*ssa.Call); ok && el.Call.IsInvoke() && el.Call.Method.Name() == "Elem" {
-						if o, ok := typeOfValue(unspill(el.Call.Value)); ok {
-							return unspill(o), ""
+					if el, ok := origin(so.Call.Args[0]).(*ssa.Call); ok && el.Call.IsInvoke() && el.Call.Method.Name() == "Elem" {
+						if o, ok := typeOfValue(origin(el.Call.Value)); ok {
+							return origin(o), ""
 						}
 					}
 				}
 			}
 			return nil, ""
 		case "reflect.New":
-			if o, ok := typeOfValue(unspill(x.Call.Args[0])); ok {
-				return unspill(o), "p"
+			if o, ok := typeOfValue(origin(x.Call.Args[0])); ok {
+				return origin(o), "p"
 			}
 			return nil, ""
 		case "(reflect.Value).Index", "(reflect.Value).MapIndex":
@@ -1052,7 +1039,7 @@ func containerTypeOriginL(v ssa.Value, depth int, seen map[ssa.Value]bool) (ssa.
 		return x, ""
 	case *ssa.UnOp:
 		if ia, ok := x.X.(*ssa.IndexAddr); ok {
-			if c, ok := unspill(ia.X).(*ssa.Call); ok {
+			if c, ok := origin(ia.X).(*ssa.Call); ok {
 				if f := c.Call.StaticCallee(); f != nil && f.String() == "(reflect.Value).MapKeys" {
 					o, l := containerTypeOriginL(c.Call.Args[0], depth+1, seen)
 					return o, l + "k"
